@@ -3,6 +3,7 @@ pub mod backend;
 pub mod c04;
 pub mod c06c10;
 pub mod c09;
+pub mod c12;
 pub mod c14;
 pub mod c15;
 pub mod c18;
@@ -27,6 +28,7 @@ pub fn all_checks() -> Vec<Box<dyn driver::Check>> {
         Box::new(c06c10::C06),
         Box::new(c09::C09),
         Box::new(c06c10::C10),
+        Box::new(c12::C12),
         Box::new(c14::C14),
         Box::new(c15::C15),
         Box::new(c18::C18),
